@@ -35,8 +35,8 @@ fn emit(b: &mut Block, o: Op) {
 
 #[derive(Clone, Debug, PartialEq, Eq, PartialOrd, Ord)]
 enum Loc { I(usize, usize), E(usize, usize), B(usize) }
-fn loc_of_owned(l: &ProgramLocation) -> Loc {
-    match l.function_location() { FunctionLocation::Instruction(b, i) => Loc::I(*b, *i), FunctionLocation::Edge(h, t) => Loc::E(*h, *t), FunctionLocation::EmptyBlock(b) => Loc::B(*b) }
+fn loc_of_owned(l: &ProgramLocation, shift: usize) -> Loc {
+    match l.function_location() { FunctionLocation::Instruction(b, i) => Loc::I(*b, i.wrapping_sub(shift)), FunctionLocation::Edge(h, t) => Loc::E(*h, *t), FunctionLocation::EmptyBlock(b) => Loc::B(*b) }
 }
 
 struct Model { blocks: Vec<Vec<Op>>, edges: BTreeSet<(usize, usize)>, cond: BTreeSet<(usize, usize)> }
@@ -72,6 +72,7 @@ fn main() {
     for a in OPS { for b in OPS { contents.push(vec![a, b]); } }
     let nc = contents.len();
     let mut counter = 0u64;
+    let mut evals_fn = 0u64;
     for nb in 1..=3usize {
         let total = (nc as u64).pow(nb as u32);
         for cc in 0..total { for bits in 0u32..(1u32 << (nb * nb)) {
@@ -79,10 +80,16 @@ fn main() {
             // thin out deterministically: all 1-block, 1 in 11 of 2-block, 1 in 4001 of 3-block functions
             if nb == 2 && counter % 11 != 0 { continue; }
             if nb == 3 && counter % 4001 != 0 { continue; }
+            let shift = (evals_fn % 2) as usize; evals_fn += 1;
             let mut cfg = ControlFlowGraph::new();
             let mut model = Model { blocks: vec![], edges: BTreeSet::new(), cond: BTreeSet::new() };
             let mut c = cc;
-            for _ in 0..nb { let ops = contents[(c % nc as u64) as usize].clone(); c /= nc as u64; let b = cfg.new_block().unwrap(); for o in &ops { emit(b, *o); } model.blocks.push(ops); }
+            for _ in 0..nb { let ops = contents[(c % nc as u64) as usize].clone(); c /= nc as u64; let b = cfg.new_block().unwrap();
+                // every other function gets non-dense instruction indices (1, 2 instead of 0, 1): a leading nop is removed again
+                if shift == 1 && !ops.is_empty() { b.nop(); }
+                for o in &ops { emit(b, *o); }
+                if shift == 1 && !ops.is_empty() { b.remove_instruction(0).unwrap(); }
+                model.blocks.push(ops); }
             for h in 0..nb { let outs: Vec<usize> = (0..nb).filter(|t| bits & (1 << (h * nb + t)) != 0).collect();
                 for (k, t) in outs.iter().enumerate() {
                     if outs.len() > 1 { let g = expr_scalar("g", 1); let cnd = if k == 0 { g } else { Expression::cmpeq(g, expr_const(0, 1)).unwrap() }; cfg.conditional_edge(h, *t, cnd).unwrap(); model.cond.insert((h, *t)); }
@@ -98,7 +105,7 @@ fn main() {
                 other => { report!("completes", model, "reaching_definitions/use_def/def_use", other.is_ok(), "Ok"); continue; }
             };
             let conv = |m: &std::collections::HashMap<ProgramLocation, falcon::analysis::LocationSet>| -> BTreeMap<Loc, BTreeSet<Loc>> {
-                m.iter().map(|(k, v)| (loc_of_owned(k), v.locations().iter().map(loc_of_owned).collect())).collect() };
+                m.iter().map(|(k, v)| (loc_of_owned(k, shift), v.locations().iter().map(|x| loc_of_owned(x, shift)).collect())).collect() };
             let (rd, ud, du) = (conv(&rd), conv(&ud), conv(&du));
             // def-use is exactly the inverse of use-def
             for (u, ds) in &ud { for d in ds { if !du.get(d).map(|s| s.contains(u)).unwrap_or(false) { report!("def_use", model, format!("d={:?} in use_def[{:?}]", d, u), "u not in def_use[d]", "inverse relation"); } } }
